@@ -239,8 +239,10 @@ fn check_report(rep: &str, m: &Maps, tb: &Tables, via: &str, c11: bool, out: &mu
         let shown_o: i64 = p.entries.iter().filter(|(k, _)| matches!(k, Pat::O(_))).map(|(_, v)| v.len() as i64).sum();
         let tot_v: Vec<i64> = p.totals.iter().filter(|(_, w, _)| w.to_lowercase().starts_with('v')).map(|x| x.2).collect();
         let tot_o: Vec<i64> = p.totals.iter().filter(|(_, w, _)| w.to_lowercase().starts_with('o')).map(|x| x.2).collect();
-        let v_part = via == "vulnerability_report" || (via == "generate_report" && !m.v.is_empty());
-        let o_part = via == "optimization_report" || (via == "generate_report" && !m.o.is_empty());
+        let has = |items: &Vec<(usize, Files)>| items.iter().any(|(_, fs)| fs.iter().any(|(_, l)| !l.is_empty()));
+        let (v_has, o_has, q_has) = (has(&m.v), has(&m.o), has(&m.q));
+        let v_part = via == "vulnerability_report" || (via == "generate_report" && v_has);
+        let o_part = via == "optimization_report" || (via == "generate_report" && o_has);
         if v_part {
             if tot_v.len() != 1 || tot_v[0] != shown_v {
                 push(format!("{}:total-vulnerabilities", via), format!("one total equal to the {} entries listed in the vulnerability part", shown_v), format!("{:?}", tot_v));
@@ -262,21 +264,23 @@ fn check_report(rep: &str, m: &Maps, tb: &Tables, via: &str, c11: bool, out: &mu
             let vq = has(|q| matches!(q, Pat::V(_)));
             let oq = has(|q| matches!(q, Pat::O(_)));
             let qq = has(|q| matches!(q, Pat::Q(_)));
-            if vq != !m.v.is_empty() || (tot_v.is_empty() == !m.v.is_empty()) {
-                push("generate_report:vulnerability-part-presence".into(), format!("present = {}", !m.v.is_empty()), format!("sections {} totals {:?}", vq, tot_v));
+            if vq != v_has || (tot_v.is_empty() == v_has) {
+                push("generate_report:vulnerability-part-presence".into(), format!("present = {}", v_has), format!("sections {} totals {:?}", vq, tot_v));
             }
-            if oq != !m.o.is_empty() || (tot_o.is_empty() == !m.o.is_empty()) {
-                push("generate_report:optimization-part-presence".into(), format!("present = {}", !m.o.is_empty()), format!("sections {} totals {:?}", oq, tot_o));
+            if oq != o_has || (tot_o.is_empty() == o_has) {
+                push("generate_report:optimization-part-presence".into(), format!("present = {}", o_has), format!("sections {} totals {:?}", oq, tot_o));
             }
-            if qq != !m.q.is_empty() {
-                push("generate_report:qa-part-presence".into(), format!("present = {}", !m.q.is_empty()), format!("sections {}", qq));
+            if qq != q_has {
+                push("generate_report:qa-part-presence".into(), format!("present = {}", q_has), format!("sections {}", qq));
             }
         }
         // severity headings
         if via == "vulnerability_report" || via == "generate_report" {
             let mut want_sev: BTreeSet<&'static str> = BTreeSet::new();
-            for (i, _) in &m.v {
-                want_sev.insert(severity_of(&tb.name[&Pat::V(*i)]));
+            for (i, fs) in &m.v {
+                if fs.iter().any(|(_, l)| !l.is_empty()) {
+                    want_sev.insert(severity_of(&tb.name[&Pat::V(*i)]));
+                }
             }
             let got_sev: Vec<&'static str> = p.severity_headings.iter().map(|x| x.1).collect();
             let got_set: BTreeSet<&'static str> = got_sev.iter().copied().collect();
@@ -314,7 +318,7 @@ fn lines_of(k: usize) -> BTreeSet<i32> {
         _ => [7, 8].into_iter().collect(),
     }
 }
-const NAMES: &[&str] = &["A.sol", "a b.sol", "x:9.sol", "é.sol", "- y.sol", "## High Risk.sol", "A.sol", "B.sol:4", "Total Optimizations 9.sol"];
+const NAMES: &[&str] = &["A.sol", "a b.sol", "x:9.sol", "é.sol", "- y.sol", "## High Risk.sol", "A.sol", "B.sol:4", "Total Optimizations 9.sol", "Vault<T>.sol", "a&b.sol", "*bold*.sol", "[x](y).sol", "back`tick.sol", "tab\tname.sol"];
 
 fn files_variant(k: usize, nfiles: usize) -> Files {
     (0..nfiles).map(|j| (NAMES[(k + j * 3) % NAMES.len()].to_string(), lines_of(k + j))).collect()
@@ -344,6 +348,19 @@ pub fn map_space(tb: &Tables, tier: Tier) -> Vec<Maps> {
         out.push(Maps { v: vec![(i, dup.clone())], o: vec![], q: vec![] });
         out.push(Maps { v: vec![], o: vec![(i, dup.clone()), (no - 1 - i, dup.clone())], q: vec![] });
         out.push(Maps { v: vec![], o: vec![], q: vec![(i % nq, dup)] });
+    }
+    // keys that carry no finding: an empty file list, or files with empty line sets; such a pattern has
+    // no findings, so neither a section nor an entry may appear for it
+    for i in 0..nv.max(nq) {
+        let empty_files: Files = vec![];
+        let empty_lines: Files = vec![("Empty.sol".into(), BTreeSet::new())];
+        let real: Files = files_variant(i, 2);
+        out.push(Maps { v: vec![(i % nv, empty_files.clone())], o: vec![], q: vec![] });
+        out.push(Maps { v: vec![(i % nv, empty_files.clone()), ((i + 1) % nv, real.clone())], o: vec![], q: vec![] });
+        out.push(Maps { v: vec![], o: vec![(i, empty_files.clone()), (i + 3, real.clone()), (i + 5, empty_lines.clone())], q: vec![] });
+        out.push(Maps { v: vec![], o: vec![], q: vec![(i % nq, empty_files.clone())] });
+        out.push(Maps { v: vec![], o: vec![], q: vec![(i % nq, empty_lines.clone()), ((i + 1) % nq, real.clone())] });
+        out.push(Maps { v: vec![(i % nv, real.clone())], o: vec![(i, empty_files.clone())], q: vec![((i + 2) % nq, empty_files.clone())] });
     }
     // QA: all subsets
     for mask in 0u32..(1 << nq) {
@@ -396,11 +413,20 @@ fn render_all(m: &Maps, tb: &Tables, scratch: Option<&std::path::Path>) -> Vec<(
     if let Some(dir) = scratch {
         // generate_report writes solstat_report.md into the working directory
         let path = dir.join("solstat_report.md");
-        let _ = std::fs::remove_file(&path);
+        // the report left by the previous rendering stays in place (the sequence of maps is a history);
+        // a marker is appended to it so that "not written at all" is distinguishable from "written"
+        if let Ok(mut f) = std::fs::OpenOptions::new().append(true).open(&path) {
+            use std::io::Write;
+            let _ = f.write_all(b"\n<!-- stale marker left by the harness -->\n- Stale.sol:424242\n");
+        }
         let r = util::guarded(|| generate_report(hm(&tb.vulns, &m.v), hm(&tb.opts, &m.o), hm(&tb.qas, &m.q)));
         let res = match r {
             Err(e) => Err(e),
-            Ok(()) => std::fs::read_to_string(&path).map_err(|_| "generate_report returned but solstat_report.md does not exist in the working directory".to_string()),
+            Ok(()) => match std::fs::read_to_string(&path) {
+                Err(_) => Err("generate_report returned but solstat_report.md does not exist in the working directory".to_string()),
+                Ok(t) if t.contains("stale marker left by the harness") => Err("generate_report returned but the report of the previous run is still there (not replaced): solstat_report.md does not exist as a fresh report".to_string()),
+                Ok(t) => Ok(t),
+            },
         };
         v.push(("generate_report", res));
     }
